@@ -652,4 +652,40 @@ theorem flatten_ok (evs : List Event) (its : List Item) (h : flatten evs = .ok i
         rw [← h, hx, ih ys hys]
         simp
 
+
+
+/-! ### the table stand-in: list order decides what a row holds after the block -/
+
+theorem applyRow_other (tbl : List (String × Nat)) (op : RowOp) (k : String) (h : op.key ≠ k) :
+    lookup (applyRow tbl op) k = lookup tbl k := by
+  cases op with
+  | insert k' v => simp only [RowOp.key] at h; simp [applyRow, lookup_upsert, h]
+  | update k' v =>
+    simp only [RowOp.key] at h
+    simp only [applyRow]
+    split
+    · simp [lookup_upsert, h]
+    · rfl
+  | add k' v =>
+    simp only [RowOp.key] at h
+    simp only [applyRow]
+    split
+    · simp [lookup_upsert, h]
+    · rfl
+
+theorem applyRows_untouched (ops : List RowOp) (tbl : List (String × Nat)) (k : String)
+    (h : ∀ op ∈ ops, op.key ≠ k) : lookup (applyRows tbl ops) k = lookup tbl k := by
+  induction ops generalizing tbl with
+  | nil => rfl
+  | cons op rest ih =>
+    simp only [applyRows, List.foldl_cons]
+    have := ih (applyRow tbl op) (fun o ho => h o (List.mem_cons_of_mem _ ho))
+    simp only [applyRows] at this
+    rw [this, applyRow_other tbl op k (h op (List.mem_cons_self ..))]
+
+theorem applyRows_append (tbl : List (String × Nat)) (a b : List RowOp) :
+    applyRows tbl (a ++ b) = applyRows (applyRows tbl a) b := by
+  simp [applyRows, List.foldl_append]
+
+
 end ZChain.Events
